@@ -18,11 +18,12 @@ func vSmallTail(S []byte, from int) {
 }
 
 // vArbFrames yields arbitrary bytes in one of three layouts the engine can follow:
-//  0: 6 (thorough 8) bytes: first byte arbitrary, the others with low 7 bits in {0..3,8,9,10}
-//     (several tiny frames of any opcode/fin/mask pattern);
-//  1: 8 bytes with the 16-bit length form announcing <= 2, 126 or 65535, tail as in 0;
-//  2: 14 bytes with the 64-bit length form announcing <= 2 or anything >= 2^31 (incl. 2^63-1
-//     and values with the top bit set), tail as in 0.
+//
+//	0: 6 (thorough 8) bytes: first byte arbitrary, the others with low 7 bits in {0..3,8,9,10}
+//	   (several tiny frames of any opcode/fin/mask pattern);
+//	1: 8 bytes with the 16-bit length form announcing <= 2, 126 or 65535, tail as in 0;
+//	2: 14 bytes with the 64-bit length form announcing <= 2 or anything >= 2^31 (incl. 2^63-1
+//	   and values with the top bit set), tail as in 0.
 func vArbFrames() []byte {
 	switch vChoose("layout", 3) {
 	case 0:
